@@ -51,8 +51,10 @@ Proof. exact image_stable. Qed.
       the proof does not track the bytes of image blobs);
     - Display prints every NaN alike, whatever sign and payload ([fmt64 (canon64 b) = fmt64 b]):
       the reader gets the canonical NaN back, the copy must print the same text;
-    - [proto_canonical]: scale and offset of scaled integer records are not NaNs with a payload
-      (they enter the Cartesian / spherical bounds the copy recomputes). *)
+    - [proto_canonical]: scale and offset of scaled integer records (they enter the Cartesian /
+      spherical bounds the copy recomputes) and the limits of float records (the prototype check
+      compares them; since /repo eaf8fc6 an accepted prototype has no NaN there at all) are not
+      NaNs with a payload. *)
 From E57 Require Import Base.Floats Model.Meta Model.MetaFile Model.XmlTree Model.XmlGen Model.WriterApi Model.WriterFull
   Spec.XgWriterOk Spec.XeMetaOk Proofs.C04Compose
   Proofs.WapiInv Proofs.WapiFullProg Proofs.WapiFullMeta Proofs.WapiFullInv Proofs.WapiFull Proofs.WapiAccept Proofs.WapiCopy.
